@@ -5,6 +5,7 @@ use crate::{
     zx::{machine::ZXMachine, video::colors::ZXColor},
     Result,
 };
+use rustzx_z80::Z80Bus;
 
 const SNA_HEADER_SIZE: usize = 27;
 const SNA_128K_SECONDARY_HEADER_SIZE: usize = 4;
@@ -169,16 +170,28 @@ where
 struct ScopedSnapshotState<'a, H: Host> {
     pub emulator: &'a mut Emulator<H>,
     pub is_48k: bool,
+    // bytes below the stack pointer which are temporarily replaced by PC
+    stack_backup: [u8; 2],
 }
 
 impl<'a, H: Host> ScopedSnapshotState<'a, H> {
     fn enter(emulator: &'a mut Emulator<H>) -> Self {
         let is_48k = emulator.settings.machine == ZXMachine::Sinclair48K;
+        let mut stack_backup = [0u8; 2];
         if is_48k {
+            let sp = emulator.cpu.regs.get_sp();
+            stack_backup = [
+                emulator.controller.memory.read(sp.wrapping_sub(1)),
+                emulator.controller.memory.read(sp.wrapping_sub(2)),
+            ];
             emulator.cpu.push_pc_to_stack(&mut emulator.controller);
         }
 
-        Self { emulator, is_48k }
+        Self {
+            emulator,
+            is_48k,
+            stack_backup,
+        }
     }
 }
 
@@ -188,6 +201,14 @@ impl<'a, H: Host> Drop for ScopedSnapshotState<'a, H> {
             self.emulator
                 .cpu
                 .pop_pc_from_stack(&mut self.emulator.controller);
+            // Taking a snapshot should not change memory of the running machine
+            let sp = self.emulator.cpu.regs.get_sp();
+            self.emulator
+                .controller
+                .write_internal(sp.wrapping_sub(1), self.stack_backup[0]);
+            self.emulator
+                .controller
+                .write_internal(sp.wrapping_sub(2), self.stack_backup[1]);
         }
     }
 }
@@ -198,7 +219,9 @@ where
     R: DataRecorder,
 {
     let state = ScopedSnapshotState::enter(emulator);
-    let ScopedSnapshotState { emulator, is_48k } = &state;
+    let ScopedSnapshotState {
+        emulator, is_48k, ..
+    } = &state;
 
     let mut header = [0u8; SNA_HEADER_SIZE];
     // interrupt register
